@@ -27,7 +27,7 @@ def run(ctx):
     ctx.rule("C08.2", "no propagated fallible call between the durability point and the last publication point")
     ctx.rule("C08.3", "no storage / io Result is discarded in the commit, compaction, checkpoint, pager and node-table code")
 
-    for fn, mut_extra in ((M.COMMIT, ()), (M.GET_OR_CREATE_LABEL, (LABEL_GET_OR_CREATE,))):
+    for fn, mut_extra in ((M.COMMIT, ()), (M.GET_OR_CREATE_LABEL, (LABEL_GET_OR_CREATE,)), (M.COMPACT, ())):
         b = ctx.body(fn)
         fs = [c for c in b.calls() if c.name == M.WAL_FSYNC]
         oks = [o for o in (paths.ok_arm(b, c) for c in fs) if o is not None]
